@@ -40,6 +40,31 @@ let handle (toks: string list) : string =
       let buf = run_track (is13 = "1") (nat_of_int (int_of_string sync)) (n_of_int (int_of_string fill))
                   (n_of_int (int_of_string buflen)) (n_of_int (int_of_string vol)) (n_of_int (int_of_string trk)) (pairs rest) in
       id ^ " " ^ hex_of_bytes buf
+  | "cells" :: id :: family :: btype :: rest ->
+      (* family: do | woz | d13 | woz35:<sides> | fat:<spt>:<heads>:<secsize> | cpm:<imd|td0>:<ident>:<spt>:<shift>:<heads> *)
+      let ni s = n_of_int (int_of_string s) in
+      let fam = String.split_on_char ':' family in
+      let cs : (((((n * n) * n) * n) * n) list) option =
+        (match fam, btype, rest with
+         | ["do"], "do", [t; s] -> Some (do_cells_do (ni t) (ni s))
+         | ["do"], "po", [b] -> Some (do_cells_po (ni b))
+         | ["do"], "cpm", [b; bsh; off] -> Some (do_cells_cpm (ni b) (ni bsh) (ni off))
+         | ["woz"], "do", [t; s] -> Some (woz_cells_do (ni t) (ni s))
+         | ["woz"], "po", [b] -> Some (woz_cells_po (ni b))
+         | ["woz"], "cpm", [b; bsh; off] -> Some (woz_cells_cpm (ni b) (ni bsh) (ni off))
+         | ["d13"], "d13", [t; s] -> Some (d13_cells (ni t) (ni s))
+         | ["woz35"; sides], "po", [b] -> Some (woz35_cells (ni sides) (ni b))
+         | ["fat"; spt; heads; secsize], "fat", [s1; n] -> Some (fat_cells (ni spt) (ni heads) (ni secsize) (ni s1) (ni n))
+         | ["cpm"; which; ident; spt; shift; heads], "cpm", [b; bsh; off] ->
+             let codes = List.init (String.length ident) (fun i -> n_of_int (Char.code ident.[i])) in
+             cpm_cells_kind (if which = "imd" then imd_skew_table else td0_skew_table) codes (ni spt) (ni shift) (ni heads) (ni b) (ni bsh) (ni off)
+         | _ -> None) in
+      (match cs with
+       | None -> id ^ " none"
+       | Some cs ->
+           let recs = records cs in
+           id ^ " " ^ String.concat ";" (List.map (fun ((((c, h), s), o), _) ->
+             Printf.sprintf "%d,%d,%d,%d" (int_of_n c) (int_of_n h) (int_of_n s) (int_of_n o)) recs))
   | cmd :: id :: _ -> id ^ " unsupported:" ^ cmd
   | _ -> "?"
 
